@@ -72,15 +72,8 @@ def rule_sigma_table(chk):
     """the images assumed for the precomputed symbols are themselves consequences of their definitions"""
     eq = M.py(EQ)
     fn = M.find_func(eq, 'precomputed_symbols')
-    blocks = {}
-    for a in ast.walk(fn):
-        if isinstance(a, ast.Assign) and isinstance(a.targets[0], ast.Attribute) and U(a.targets[0].value) == 'c' and isinstance(a.value, ast.Call):
-            for k in a.value.keywords:
-                if k.arg == 'code':
-                    v = k.value
-                    if isinstance(v, ast.Call):
-                        v = v.args[0]
-                    blocks[a.targets[0].attr] = M.const_str(v)
+    from verif_static import emit as EM_
+    blocks = dict((k_, v_[0]) for k_, v_ in EM_.precomputed_table(EQ).items())
     import textwrap
     want = {'HIJ': +1, 'RHOIJ': +1, 'RHOIJ1': +1, 'R2IJ': +1, 'RIJ': +1, 'EPS': +1, 'XIJ': -1, 'VIJ': -1}
     for sym, sign in sorted(want.items()):
@@ -245,6 +238,7 @@ def main(chk):
     ci1, concrete1 = c01.load_classes()
     c01.rule_acceptance(chk, ci1, concrete1)
     c01.rule_no_pruning(chk, ci1, concrete1)
+    c01.rule_cached_entry(chk)
     ci5, classes5 = c05.nnps_classes()
     c05.rule_sorting(chk, ci5, classes5, [c.name for r, c in concrete1 if c.name != 'DictBoxSortNNPS'])
     c02.rule_scratch(chk)
